@@ -28,12 +28,18 @@ func init() {
 				"request-specific adjustment (AD bit, ECS echo) and after hop-by-hop data is removed, and re-applies those " +
 				"adjustments on the hit path.",
 			NotCovered: "the rounding amount of the served TTL, LRU eviction, that the cache library honours the expiry (trusted).",
-			Rules: map[string]string{"C04-R22": "respIsECSDependent: an answer with a non-zero scope for a name outside the fake-ECS list goes to the subnet-keyed cache (table shared with C05-R16)", "C04-R21": "dnsmsg.IsDO looks the OPT record up wherever it stands in the additional section (Msg.IsEdns0) and reports its DO bit: a request with a record after the OPT record (TSIG, SIG(0)) is keyed under its real DO setting", "C04-R20": "ecscache.itemFromCache returns a miss when the stored item belongs to another host (64-bit key collision; shared with C12-R6)", "C04-R19": "ecscache ServeDNS: between the GeoIP subnet lookup and the cache lookup, the flag that separates the cache key of zero-prefix requests (isECSDeclined) is set from the length of the looked-up subnet: the answer an ECS-aware upstream gives to a /0 (scope 0, generic) is not stored under the key that located clients look up first", "C04-R18": "isCacheableNOERROR (both caches): the authority section qualifies a NODATA answer only through an SOA record", "C04-R16": "the main middleware disposes of the original response only when a different one was written (a response that is written, cached and disposed twice aliases pooled records; shared with C07-R3)", "C04-R17": "the initial middleware sets AD unconditionally in the request handed to the pipeline, so cached answers carry the upstream's AD for every requester (table shared with C01-R21)", "C04-R15": "ecscache ServeDNS: the upstream request carries the subnet the cache is keyed by (table shared with C05-R1)", "C04-R14": "TTL stores on records that may come from an additional section are guarded by a not-OPT test (the OPT TTL field is extended rcode / version / DO)", "C04-RC": "class rules (error chains, shadowed results, character classes, crossed arguments, pool constructors, array pools, loop completeness, loop-carried buffers, replacing setters, complete clones, Grow arithmetic, pooled-buffer escape, sorted searches, fresh decode targets, per-iteration objects, whole-message copies, codec guards) over the packages this property rests on", "C04-R13": "setECS leaves exactly one subnet option, in requests and responses alike (table shared with C05-R4)", "C04-R12": "cache wrappers (agdcache, ecscache, dnsserver/cache) use every parameter: key, value and expiration reach the wrapped cache", "C04-R1": "served TTL aged on every path", "C04-R2": "cache key completeness", "C04-R3": "cacheability and store tables",
+			Rules: map[string]string{"C04-R24": "the cache constructors take the TTL-override switch and the minimum TTL from the configuration as they are (a plain load of OverrideTTL / MinTTL into overrideTTL / cacheMinTTL): a configured minimum does not switch the override on by itself", "C04-R23": "the simple cache files an answer under the key of the request it answers: the message handed to toCacheKey on the store path is the handler's request, the same value as on the lookup path, not the upstream's response (whose OPT record, and with it the DO bit of the key, is the upstream's choice)", "C04-R22": "respIsECSDependent: an answer with a non-zero scope for a name outside the fake-ECS list goes to the subnet-keyed cache (table shared with C05-R16)", "C04-R21": "dnsmsg.IsDO looks the OPT record up wherever it stands in the additional section (Msg.IsEdns0) and reports its DO bit: a request with a record after the OPT record (TSIG, SIG(0)) is keyed under its real DO setting", "C04-R20": "ecscache.itemFromCache returns a miss when the stored item belongs to another host (64-bit key collision; shared with C12-R6)", "C04-R19": "ecscache ServeDNS: between the GeoIP subnet lookup and the cache lookup, the flag that separates the cache key of zero-prefix requests (isECSDeclined) is set from the length of the looked-up subnet: the answer an ECS-aware upstream gives to a /0 (scope 0, generic) is not stored under the key that located clients look up first", "C04-R18": "isCacheableNOERROR (both caches): the authority section qualifies a NODATA answer only through an SOA record", "C04-R16": "the main middleware disposes of the original response only when a different one was written (a response that is written, cached and disposed twice aliases pooled records; shared with C07-R3)", "C04-R17": "the initial middleware sets AD unconditionally in the request handed to the pipeline, so cached answers carry the upstream's AD for every requester (table shared with C01-R21)", "C04-R15": "ecscache ServeDNS: the upstream request carries the subnet the cache is keyed by (table shared with C05-R1)", "C04-R14": "TTL stores on records that may come from an additional section are guarded by a not-OPT test (the OPT TTL field is extended rcode / version / DO)", "C04-RC": "class rules (error chains, shadowed results, character classes, crossed arguments, pool constructors, array pools, loop completeness, loop-carried buffers, replacing setters, complete clones, Grow arithmetic, pooled-buffer escape, sorted searches, fresh decode targets, per-iteration objects, whole-message copies, codec guards) over the packages this property rests on", "C04-R13": "setECS leaves exactly one subnet option, in requests and responses alike (table shared with C05-R4)", "C04-R12": "cache wrappers (agdcache, ecscache, dnsserver/cache) use every parameter: key, value and expiration reach the wrapped cache", "C04-R1": "served TTL aged on every path", "C04-R2": "cache key completeness", "C04-R3": "cacheability and store tables",
 				"C04-R4": "lowest-TTL helper table", "C04-R5": "hit-path coverage and store ordering", "C04-R6": "cached items are private deep copies"},
 		}})
 }
 
 func runC04(c *an.Ctx) {
+	// ---- R24: the TTL override is switched on by its own setting only
+	c.Floor("C04-R24", 4)
+	c04OverrideVerbatim(c, "C04-R24")
+	// ---- R23: store key and lookup key come from the same message
+	c.Floor("C04-R23", 1)
+	c04StoreKeyFromRequest(c, "C04-R23")
 	// ---- R22: which cache an upstream answer goes to (shared with C05-R16)
 	c.Floor("C04-R22", 1)
 	c.Borrow("C04-R22", runC05, func(o an.Obligation) bool { return o.Rule == "C05-R16" })
@@ -259,6 +265,9 @@ func runC04(c *an.Ctx) {
 				if fnKey == "ecscache.(*Middleware).set" {
 					return []an.AV{an.NonNil("p0"), an.NonNil("p1"), an.NonNil("p2"), in.Feature("ecsdep")}
 				}
+				if fnKey == "dnsserver/cache.(*Middleware).set" {
+					return []an.AV{an.NonNil("p0"), an.NonNil("p1"), an.NonNil("p2")}
+				}
 				return []an.AV{an.NonNil("p0"), an.NonNil("p1")}
 			},
 			Expect: func(f an.Features, o an.AOutcome) string {
@@ -299,7 +308,8 @@ func runC04(c *an.Ctx) {
 			},
 		})
 	}
-	setTable("dnsserver/cache.(*Middleware).set", "dnsserver/cache.findLowestTTL", "dnsserver/cache.isCacheable", "p0.overrideTTL", "p1.MsgHdr.Rcode", "p0.cacheMinTTL", 2)
+	// the simple cache's set takes the request (for the key, C04-R23) and the response
+	setTable("dnsserver/cache.(*Middleware).set", "dnsserver/cache.findLowestTTL", "dnsserver/cache.isCacheable", "p0.overrideTTL", "p2.MsgHdr.Rcode", "p0.cacheMinTTL", 2)
 	setTable("ecscache.(*Middleware).set", "dnsmsg.FindLowestTTL", "ecscache.isCacheable", "p0.overrideTTL", "p1.MsgHdr.Rcode", "p0.cacheMinTTL", 2)
 
 	// ---- R4 getTTLIfLower
@@ -516,7 +526,12 @@ func c04SimpleCache(c *an.Ctx) {
 				case e.Name == "p1.WriteMsg":
 					writes = append(writes, strings.Join(e.Args, ","))
 				case strings.HasSuffix(e.Name, "cache.Middleware).set"):
-					sets = append(sets, e.Args[1])
+					// set(m, request, response): the request is what the key is computed from (C04-R23)
+					if len(e.Args) == 3 && e.Args[1] == "p2" {
+						sets = append(sets, e.Args[2])
+					} else {
+						sets = append(sets, strings.Join(e.Args[1:], " "))
+					}
 				case strings.HasSuffix(e.Name, "handler.ServeDNS"):
 					nexts = append(nexts, strings.Join(e.Args, ","))
 				}
@@ -918,4 +933,100 @@ func c04ZeroSubnetKeyedApart(c *an.Ctx, rule string) {
 	c.Check(found != "", rule, key, geo.Pos(),
 		"isECSDeclined is set from the length of the looked-up subnet at "+found,
 		"no store into cacheRequest.isECSDeclined that depends on Bits() of the subnet lies between the SubnetByLocation call and the cache lookup: a client whose location has no subnet is forwarded with a /0, the upstream's generic scope-0 answer is stored under the key of located clients, and they get it instead of the answer for their subnet")
+}
+
+// c04StoreKeyFromRequest: in the simple cache, get and set both call toCacheKey.
+// Followed back through the parameters of get and set to the handler closure
+// made by Wrap, both arguments are the closure's request parameter.
+func c04StoreKeyFromRequest(c *an.Ctx, rule string) {
+	wrap := c.Prog.Fn("dnsserver/cache.(*Middleware).Wrap$1")
+	key := "dnsserver/cache.(*Middleware).set keys the stored answer by the request"
+	if wrap == nil {
+		c.Und(rule, key, token.NoPos, "anchor (the handler closure of Wrap) not found")
+		return
+	}
+	// source returns the value of the handler closure that reaches toCacheKey through the given method
+	source := func(method string) (src ssa.Value, pos token.Pos) {
+		fn := c.Prog.Fn("dnsserver/cache.(*Middleware)." + method)
+		if fn == nil {
+			return nil, token.NoPos
+		}
+		c.Analysed(an.FnKey(fn))
+		idx := -1
+		for _, call := range an.Calls(fn) {
+			if strings.HasSuffix(an.CalleeName(call), "dnsserver/cache.toCacheKey") && len(call.Common().Args) == 1 {
+				pos = call.Pos()
+				for i, pa := range fn.Params {
+					if call.Common().Args[0] == ssa.Value(pa) {
+						idx = i
+					}
+				}
+			}
+		}
+		if idx < 0 {
+			return nil, pos
+		}
+		for _, call := range an.Calls(wrap) {
+			if an.StaticCallee(call) == fn && idx < len(call.Common().Args) {
+				return call.Common().Args[idx], pos
+			}
+		}
+		return nil, pos
+	}
+	getSrc, _ := source("get")
+	setSrc, setPos := source("set")
+	if getSrc == nil {
+		c.Und(rule, key, wrap.Pos(), "the lookup key could not be followed to the handler")
+		return
+	}
+	isReq := func(v ssa.Value) bool {
+		pa, ok := v.(*ssa.Parameter)
+		return ok && pa.Parent() == wrap && pa.Name() == "req"
+	}
+	c.Analysed(an.FnKey(wrap))
+	c.Check(setSrc != nil && setSrc == getSrc && isReq(setSrc), rule, key, setPos,
+		"both keys are computed from the handler's request",
+		"the key of a stored answer is not computed from the handler's request (the message the lookup key is computed from): whether the answer to a DO=1 query is filed under DO=1 depends on the OPT record the upstream chose to send, and a DO=0 client can be served an answer with signatures, or the other way round")
+}
+
+// c04OverrideVerbatim: validation demands a positive ttl_override.min also when
+// the override is disabled, so the minimum says nothing about the switch.  In
+// both cache constructors the value stored into overrideTTL is the load of the
+// configuration's OverrideTTL and the value stored into cacheMinTTL the load
+// of MinTTL, nothing computed from them.
+func c04OverrideVerbatim(c *an.Ctx, rule string) {
+	want := map[string]string{"overrideTTL": "OverrideTTL", "cacheMinTTL": "MinTTL"}
+	for _, k := range []string{"ecscache.NewMiddleware", "dnsserver/cache.NewMiddleware"} {
+		fn := c.Prog.Fn(k)
+		if fn == nil {
+			c.Und(rule, k, token.NoPos, "anchor not found")
+			continue
+		}
+		c.Analysed(k)
+		seen := map[string]bool{}
+		an.Instrs(fn, func(in ssa.Instruction) {
+			st, ok := in.(*ssa.Store)
+			if !ok {
+				return
+			}
+			_, f, _, ok := an.FieldOf(st.Addr)
+			if !ok || want[f] == "" {
+				return
+			}
+			seen[f] = true
+			src := ""
+			if ld, isLd := st.Val.(*ssa.UnOp); isLd && ld.Op == token.MUL {
+				if _, sf, _, ok := an.FieldOf(ld.X); ok {
+					src = sf
+				}
+			}
+			c.Check(src == want[f], rule, fmt.Sprintf("%s: %s is the configuration's %s as it is", k, f, want[f]), st.Pos(), "a plain load of "+want[f],
+				fmt.Sprintf("%s is stored from %s, not from a plain load of the configuration's %s: the TTL override (answers cached and served longer than their original TTL) no longer follows its own switch", f, st.Val.String(), want[f]))
+		})
+		for f := range want {
+			if !seen[f] {
+				c.Und(rule, k+": "+f, fn.Pos(), "no store into %s found", f)
+			}
+		}
+	}
 }
